@@ -354,6 +354,9 @@ func (r *runner) tx(db, shape string) bool {
 				return true
 			}
 			w = pager.WTx{Frames: []uint32{1}, NewSize: prevBlk, Outcome: "commit"}
+		case "tr":
+			// the same page twice in one transaction (written to the log by a cache spill, modified again, written again)
+			w = pager.WTx{Frames: []uint32{2, 1, 2}, Outcome: "commit"}
 		case "rb":
 			w = pager.WTx{Frames: []uint32{2, 1}, Outcome: "rollback"}
 		case "ck":
@@ -390,6 +393,8 @@ func (r *runner) tx(db, shape string) bool {
 				return true
 			}
 			x = pager.RTx{NewSize: prevBlk, Final: "TRUNCATE", Outcome: "commit"}
+		case "tr":
+			x = pager.RTx{Mods: []uint32{2}, SpillAfter: []int{1}, Final: "DELETE", Outcome: "commit"}
 		case "rb":
 			x = pager.RTx{Mods: []uint32{2}, SpillAfter: []int{1}, Final: "DELETE", Outcome: "rollback"}
 		case "ck":
@@ -906,12 +911,16 @@ func (r *runner) enabled() []string {
 			}
 			continue
 		}
-		for _, sh := range []string{"t1", "tl", "g1", "gb", "s1", "sb", "rb", "ck"} {
+		for _, sh := range []string{"t1", "tl", "tr", "g1", "gb", "s1", "sb", "rb", "ck"} {
 			if !has("tx:" + sh) {
 				continue
 			}
 			s := cur.N()
 			switch sh {
+			case "tr":
+				if s < 2 {
+					continue
+				}
 			case "s1":
 				if s < 3 {
 					continue
@@ -1004,7 +1013,7 @@ func (r *runner) enabled() []string {
 		if has("sync") && !r.cfg.BackupLoop {
 			out = append(out, "sync")
 		}
-		for _, flt := range []string{"wt-before", "wt-after", "wt-partial", "pm", "fs", "fs-partial"} {
+		for _, flt := range []string{"wt-before", "wt-after", "wt-partial", "pm", "pm-omit", "fs", "fs-partial"} {
 			if has("sync:"+flt) && !r.cfg.BackupLoop {
 				out = append(out, "sync:"+flt)
 			}
